@@ -28,6 +28,7 @@ const (
 	PKeepAlive
 	PHeaderPause
 	PReservedFlags
+	PFirstSessionCut
 )
 
 var ProbeNames = map[int]string{
@@ -42,6 +43,7 @@ var ProbeNames = map[int]string{
 	PKeepAlive:              "keep_alive_packets_in_the_stream",
 	PHeaderPause:            "peer_paused_6s_or_40s_inside_a_frame_header",
 	PReservedFlags:          "peer_sets_reserved_flag_bits",
+	PFirstSessionCut:        "first_of_two_sessions_cut_inside_a_frame",
 }
 
 const maxLen = 0x1FFFF
@@ -97,6 +99,7 @@ type plan struct {
 	resvAt   int
 	twoSess  bool // sut-receives: the transport is closed after recv1 frames and connected again (second session)
 	recv1    int
+	cut1     int // two sessions: the peer ends the first session (FIN) after this many bytes of its stream (-1 = sends all)
 	cutKind  int
 	cutAt    int // byte offset in the wire stream
 	segMode  int // -1 from the choice stream, 0 whole, 1 byte by byte
@@ -198,10 +201,39 @@ func genPlan(o hx.Opts) *plan {
 	}
 	p.v6 = hx.G(5) == 0
 	ts, r1 := hx.G(4), hx.G(maxFrames+1)
+	p.cut1 = -1
+	c1, c1pos, c1fine := hx.G(2), hx.G(1<<16), hx.G(8)
 	if p.wiring == WireSUTRecv && ts == 0 {
 		p.twoSess = true
 		p.lens2 = append(p.lens2, lens2[:n2]...)
 		p.recv1 = r1
+		if c1 == 0 {
+			// the first session dies inside a frame (mostly inside a header): whatever the receiver had assembled
+			// of that frame must be gone when the same transport object is connected again
+			total, pos := 0, 0
+			for _, l := range p.lens {
+				if l <= maxLen {
+					total += 4 + l
+				}
+			}
+			j := c1pos % (len(p.lens) + 1)
+			for i, l := range p.lens {
+				if i == j {
+					break
+				}
+				if l <= maxLen {
+					pos += 4 + l
+				}
+			}
+			if c1fine < 6 {
+				p.cut1 = pos + c1fine // 0..5 bytes into frame j
+			} else {
+				p.cut1 = c1pos % (total + 1)
+			}
+			if p.cut1 > total {
+				p.cut1 = total
+			}
+		}
 	}
 	p.window = [...]int{1 << 20, 1 << 20, 4096, 64, 7}[hx.G(5)]
 	ck, cpos, cfine := hx.F(5), hx.F(1<<16), hx.F(12)
@@ -541,10 +573,15 @@ func Run(seed uint64, index int64, o hx.Opts) *hx.Result {
 			}
 			tr := transport.NewTransport("nbt")
 			peer := rt.GoHarness("peer", peerHost, func() {
-				for _, data := range [][]byte{stream, stream2} {
+				for si, data := range [][]byte{stream, stream2} {
 					c, err := ln.Accept()
 					if err != nil {
 						return
+					}
+					if si == 0 && pl.cut1 >= 0 {
+						c.Write(data[:pl.cut1])
+						c.Close()
+						continue
 					}
 					c.Write(data) // the first session may be closed by the receiver half way: errors are expected
 					defer c.Close()
@@ -559,7 +596,9 @@ func Run(seed uint64, index int64, o hx.Opts) *hx.Result {
 					bad = &hx.Violation{Class: "connect", Key: "connect", Msg: err.Error()}
 					return
 				}
-				if n1 > 0 {
+				if pl.cut1 >= 0 {
+					recvs = receiveAll(tr, len(legal), true)
+				} else if n1 > 0 {
 					recvs = receiveAll(tr, n1, false)
 				}
 				tr.Close()
@@ -573,6 +612,10 @@ func Run(seed uint64, index int64, o hx.Opts) *hx.Result {
 			tr.Close()
 			rt.Join(peer, -1)
 			ln.Close()
+			if pl.cut1 >= 0 {
+				rt.Probe(PFirstSessionCut)
+				return // judged against all frames with the cut
+			}
 			frames = frames[:0]
 			for i := 0; i < n1; i++ {
 				frames = append(frames, legal[i])
@@ -897,6 +940,9 @@ func Run(seed uint64, index int64, o hx.Opts) *hx.Result {
 	}
 	if pl.twoSess {
 		desc += fmt.Sprintf(" two-sessions: close after %d receives, reconnect, second-session-frames=%v", pl.recv1, pl.lens2)
+		if pl.cut1 >= 0 {
+			desc += fmt.Sprintf(" (the peer ends the first session after %d bytes)", pl.cut1)
+		}
 	}
 	if pl.cutKind != cutNone {
 		desc += fmt.Sprintf("@%d", pl.cutAt)
@@ -917,8 +963,12 @@ func Run(seed uint64, index int64, o hx.Opts) *hx.Result {
 		} else if pl.twoSess {
 			pp := *pl
 			pp.wiring = WireSUTRecv
+			if pl.cut1 >= 0 {
+				pp.cutKind, pp.cutAt = cutFIN, pl.cut1
+			}
 			bad = oracle(&pp, frames, recvs, nil, nil)
 			if bad == nil {
+				pp.cutKind, pp.cutAt = cutNone, 0
 				bad = oracle(&pp, frames2, recvs2, nil, nil)
 				if bad != nil {
 					bad.Key = "second-session/" + bad.Key
